@@ -373,7 +373,8 @@ func (lc *LocalClient) safeJoinPath(path string) (string, error) {
 	cleanPath := filepath.Clean(path)
 
 	// Prevent directory traversal attacks by ensuring the path does not start with `..` or contain `../`.
-	if cleanPath == ".." || strings.HasPrefix(cleanPath, "../") || strings.Contains(cleanPath, "/../") {
+	// "." is the storage directory itself: with the file suffix appended it would name a file next to it
+	if cleanPath == "." || cleanPath == ".." || strings.HasPrefix(cleanPath, "../") || strings.Contains(cleanPath, "/../") {
 		return "", fmt.Errorf("invalid path: %s", path)
 	}
 
